@@ -83,12 +83,18 @@ theorem legacy_run_leaks :
 
 /-- The CID match of a session — short header: which CID is chosen; long header: whether the DCID is known — does not depend
     on the order in which the two CID sets are enumerated. -/
-theorem cid_choice_order_independent (cc cc' sc sc' : List Bytes) (hc : cc.Perm cc') (hs : sc.Perm sc') (h : Hdr)
-    (payload : Bytes) : cidMatch cc sc h payload = cidMatch cc' sc' h payload := by
+theorem cid_choice_order_independent (cc cc' sc sc' : List Bytes) (hc : cc.Perm cc') (hs : sc.Perm sc') (side : Side)
+    (h : Hdr) (payload : Bytes) : cidMatch cc sc side h payload = cidMatch cc' sc' side h payload := by
   cases h with
   | tooShort => rfl
   | long d v => simp only [cidMatch, hc.mem_iff, hs.mem_iff]
-  | short => simp only [cidMatch, shortPick, sortCids_perm (hc.append hs)]
+  | short =>
+    have : (shortCandidates cc sc side).Perm (shortCandidates cc' sc' side) := by
+      cases side
+      · exact hc.append hs
+      · exact hs
+      · exact hc
+    simp only [cidMatch, shortPick, sortCids_perm this]
 
 /-- Hence which session takes a datagram, and with which DCID argument, does not depend on it either (`quicTake` reads the
     sets only through `cidMatch`). -/
